@@ -4,6 +4,9 @@ import (
 	"math/big"
 	"strconv"
 
+	"mhubsim/hub"
+	govtypes "github.com/cosmos/cosmos-sdk/x/gov/types"
+
 	mhub2types "github.com/MinterTeam/mhub2/module/x/mhub2/types"
 	sdk "github.com/cosmos/cosmos-sdk/types"
 )
@@ -86,5 +89,51 @@ func (w *World) doAdvEvent(in Intent) {
 	}
 }
 
-func (w *World) doGov(in Intent)          {}
+// doGov: governance. op "cold": ColdStorageTransferProposal (chain, denom, amt); op "commission": TokenInfosChangeProposal
+// that changes one token's commission; op "vote": every validator votes yes on everything in its voting period.
+func (w *World) doGov(in Intent) {
+	proposer := w.val(in.V).Oper
+	deposit := sdk.NewCoins(sdk.NewInt64Coin(hub.BondDenom, 10_000_000))
+	switch in.Op {
+	case "cold":
+		c := mhub2types.NewColdStorageTransferProposal(mhub2types.ChainID(in.Chain), sdk.NewCoins(sdk.NewCoin(in.Denom, sdkIntOf(in.Amt))))
+		msg, err := govtypes.NewMsgSubmitProposal(c, deposit, proposer.Addr)
+		if err != nil {
+			return
+		}
+		w.St.Fault("gov_cold_storage_proposal")
+		w.Submit("gov_submit", proposer, in.Net, map[string]string{"op": in.Op}, msg)
+	case "commission":
+		infos := w.ReadState().TokenInfos()
+		if len(infos) == 0 {
+			return
+		}
+		var out []*mhub2types.TokenInfo
+		for i, ti := range infos {
+			c := *ti
+			if i == in.Pick%len(infos) {
+				if d, err := sdk.NewDecFromStr(in.Amt); err == nil {
+					c.Commission = d
+				}
+			}
+			out = append(out, &c)
+		}
+		msg, err := govtypes.NewMsgSubmitProposal(mhub2types.NewTokenInfosChangeProposal(&mhub2types.TokenInfos{TokenInfos: out}), deposit, proposer.Addr)
+		if err != nil {
+			return
+		}
+		w.St.Fault("gov_token_infos_change")
+		w.Submit("gov_submit", proposer, in.Net, map[string]string{"op": in.Op}, msg)
+	case "vote":
+		var resp govtypes.QueryProposalsResponse
+		if err := w.N().Query("/cosmos.gov.v1beta1.Query/Proposals", &govtypes.QueryProposalsRequest{ProposalStatus: govtypes.StatusVotingPeriod}, &resp); err != nil {
+			return
+		}
+		for _, p := range resp.Proposals {
+			for _, v := range w.Vals {
+				w.Submit("gov_vote", v.Oper, "", map[string]string{"id": strconv.FormatUint(p.ProposalId, 10)}, govtypes.NewMsgVote(v.Oper.Addr, p.ProposalId, govtypes.OptionYes))
+			}
+		}
+	}
+}
 func (w *World) doLogicCall(in Intent)    {}
